@@ -219,6 +219,7 @@ type Step struct {
 	Group   []OpSpec     `json:"group,omitempty"` // concurrent operations
 	Oob     *OobSpec     `json:"oob,omitempty"`
 	Corrupt *CorruptSpec `json:"corrupt,omitempty"`
+	Store   *StoreOp     `json:"store,omitempty"` // C10: one driver call
 	JumpS   int          `json:"jumpS,omitempty"` // clock jump before the step
 	Faults  []FaultSpec  `json:"faults,omitempty"`
 }
